@@ -223,7 +223,7 @@ def make_native(yp, op, nstate):
 
     arity = op["arity"]
     style = op.get("style", "explicit")
-    if arity < 0 or style == "variadic":
+    if arity < 0 or style in ("variadic", "explicit-varargs"):
         def f(*args):
             yield from body(args)
         return f
@@ -375,7 +375,10 @@ class Runner:
             yp = self.yps[op["e"] - 1]
             f = make_native(yp, op, self.nstate)
             style = op.get("style", "explicit")
-            if op["arity"] < 0 or style == "variadic":
+            if style == "explicit-varargs":
+                # a generic *args helper registered under an explicit arity (0 included)
+                yp.register_function(op["name"], f, arity=op["arity"])
+            elif op["arity"] < 0 or style == "variadic":
                 yp.register_function(op["name"], f, arity=-1)
             elif style == "inferred":
                 yp.register_function(op["name"], f)
